@@ -17,8 +17,10 @@
 // One race cannot be decided through the step hook: a goroutine started by a `go` statement of a function value
 // that the goroutine of Execute has in flight at the cancellation makes its frame before or after Execute returns
 // (which refreshes the root id the frame takes). The Lean side computes both (y, y2) and says when the race exists
-// (racy); impl = y2 is accepted on those inputs only. The class label of a case (finding F09-3) is the negation of
-// Props.C09.Dom at the moment of the cancellation, computed by the Lean side from the input (dom).
+// (racy); impl = y2 is accepted on those inputs only (since dc95f3e both orders give the same outcome: the frame gets
+// the dead id or, for a function value of an earlier evaluation, the new one, whoever comes first). The class label of
+// a case (finding F09-5) is the negation of Props.C09.Dom at the moment of the cancellation, computed by the Lean
+// side from the input (dom).
 package main
 
 import (
@@ -111,10 +113,11 @@ func buildCalib(rd rendered, res runResult, atPause []string, release bool) (c c
 		}
 		return false
 	}
+	// c call, w wrapper, l closure; + "e": the function value was made by an earlier, completed evaluation
 	siteOf := func(evs []int, p int) string {
 		st := c.Events[evs[p]].Site
-		if st == "l" && earlierAt(evs, p) {
-			return "e"
+		if (st == "l" || st == "w") && earlierAt(evs, p) {
+			return st + "e"
 		}
 		return st
 	}
@@ -155,13 +158,8 @@ func buildCalib(rd rendered, res runResult, atPause []string, release bool) (c c
 						return nil
 					}
 					last.kind, last.site = "c", siteOf(evs, pi)
-					if last.held {
-						// native code that calls back late: a wrapper (h) or a closure (k)
-						if last.site == "w" {
-							last.site = "h"
-						} else if last.site == "l" || last.site == "e" {
-							last.site = "k"
-						}
+					if last.held && last.site != "c" {
+						last.site += "h" // native code that calls back late
 					}
 					stack = append(stack, level{e.Frame, &last.body})
 				}
@@ -188,7 +186,7 @@ func buildCalib(rd rendered, res runResult, atPause []string, release bool) (c c
 				if len(byG[sg]) > 0 {
 					// who called runCfg in the new goroutine: the go statement itself (c), a wrapper (w), a closure (l)
 					n.kind, n.site = "g", "c"
-					if st := siteOf(byG[sg], 0); st == "w" || st == "l" || st == "e" {
+					if st := siteOf(byG[sg], 0); strings.HasPrefix(st, "w") || strings.HasPrefix(st, "l") {
 						n.site = st
 					}
 					n.body = build(sg)
@@ -706,10 +704,11 @@ func main() {
 	}
 	// does the real outcome agree with the model? (y2 only where the race exists)
 	agrees := func(impl string, a leanAns) bool { return impl == a.y || (a.racy && impl == a.y2) }
-	// the class label of a case: F09-3 = the negation of the theorem's domain, computed by the Lean side from the input
+	// the class label of a case: F09-5 = the negation of the theorem's domain, computed by the Lean side from the input
+	// (a call or a go statement of a function value of an EARLIER evaluation is in flight at the cancellation)
 	classOf := func(a leanAns) string {
 		if !a.dom {
-			return "funcvalue-in-flight"
+			return "earlier-funcvalue-in-flight"
 		}
 		return ""
 	}
